@@ -174,6 +174,23 @@ def run(chk: Check):
         else:
             if sorted(sel_preds) != sorted(preds.tolist())[:bs]:
                 chk.fail(f"selected predictions {sorted(sel_preds)} are not the {bs} lowest {sorted(preds.tolist())[:bs]}", case)
+        # the same object asked again, for FEWER points than its batch size and on ANOTHER history (what the de-duplication passes do, and what
+        # any caller of the public sample_batch may do): it trains on the history it is given now
+        k2 = rng.randint(1, bs)
+        pts2, losses2 = gen_history(rng, sp, rng.randint(bs, 10))
+        losses2 = losses2 + 7.0
+        log.pop("fit", None)
+        with quiet():
+            out2 = smp.sample_batch(k2, sp, pts2, losses2)
+        chk.count("select:second_request_smaller_than_batch_size" if k2 < bs else "select:second_request_full_batch")
+        if "fit" not in log:
+            chk.fail(f"a used surrogate sampler asked for {k2} point(s) (batch size {bs}) on another history did not train at all: its proposals come from the surrogate of the previous history", case)
+        else:
+            X2, y2, _, _ = log["fit"]
+            if X2.shape != pts2.shape or X2.tobytes() != pts2.tobytes() or y2.tobytes() != losses2.tobytes():
+                chk.fail(f"a used surrogate sampler asked for {k2} point(s) on another history was not trained on exactly that history", case)
+        if len(out2) != k2:
+            chk.fail(f"sample_batch({k2}) returned {len(out2)} rows", case)
         order = np.argsort(preds)
         if sorted(order.tolist()) != list(range(len(preds))) or np.any(np.diff(preds[order]) < 0):
             chk.fail("np.argsort did not return a sorting permutation (contract)", case)
